@@ -129,6 +129,35 @@ def multicallRun (responses : PyVal) : PyM (List PyVal) :=
     | .list xs => pure xs
     | _ => raise "Unmodelled" (.str "batch reply that is neither an object nor an array")
 
+/-- `MultiCallIterator.__iter__`: `for item in self.results: yield self.__get_result(item)`.
+    The generator hands out the results in order and dies with the exception of the first item whose
+    check raises; what the consumer has received up to then is the first component, the exception
+    that ended the iteration (if any) the second.  Nothing after the raising item is looked at. -/
+def multicallIter : List PyVal → List PyVal × Option PyErr
+  | [] => ([], Option.none)
+  | item :: rest =>
+    match proxyResult item with
+    | .ok r =>
+      let (ys, e) := multicallIter rest
+      (r :: ys, e)
+    | .error e => ([], some e)
+
+/-- `list(results)` / `tuple(results)` / the right-hand side of `a, b = results`: the whole iteration or the
+    exception that ended it (the partial list is dropped by the consumer). -/
+def multicallList (results : List PyVal) : PyM (List PyVal) :=
+  match multicallIter results with
+  | (ys, Option.none) => pure ys
+  | (_, some e) => .error e
+
+/-- `a, b, … = results` with `n` targets: the iteration protocol first (an error entry among the first
+    `n + 1` items consumed raises its exception), then the arity check of the unpacking. -/
+def multicallUnpack (results : List PyVal) (n : Nat) : PyM (List PyVal) :=
+  match multicallIter (results.take (n + 1)) with
+  | (_, some e) => .error e
+  | (ys, Option.none) =>
+    if ys.length = n then pure ys
+    else raise "ValueError" (.str (if ys.length < n then "not enough values to unpack" else "too many values to unpack"))
+
 /-- `AppError.data()`: `self.args[0][2]`. -/
 def appErrorData (e : PyErr) : Option PyVal :=
   match e.cls, e.arg with
